@@ -212,7 +212,7 @@ func Describe(v reflect.Value) GV {
 		}
 		return MapOf(keys, vals)
 	case k == reflect.Struct:
-		g := GV{K: "struct", T: v.Type().Name()}
+		g := GV{K: "struct", T: NameOf(v.Type())}
 		for i := 0; i < v.NumField(); i++ {
 			g.Keys = append(g.Keys, v.Type().Field(i).Name)
 			g.Elems = append(g.Elems, Describe(v.Field(i)))
